@@ -174,8 +174,8 @@ def check_case(ctx, case, record=True):
             cl.append("cycle_closed_by_transform_physical:" + str(getattr(w, "tcycle_made", None)))
         nt = (workers >= 2 and nfail > 0) or workers > len(spec["nodes"]) or cyclic or bool(case.get("tcycle"))
         ctx.case(case, nt, cl)
-    if fired and out.status == "ok" and not cyclic:
-        ctx.violation(case2, f"the start of thread {tsf} was refused but run returned normally ({out.value!r})")
+    # (a refused thread start need not surface as an error: an implementation may carry on with the threads it has;
+    # the statement only requires that run ends and leaves nothing running - asserted below)
     if out.verdict:
         ctx.violation(case2, f"run did not terminate: scheduler verdict {out.verdict}; tasks: {out.verdict_info}")
     if out.uncaught:
